@@ -17,7 +17,7 @@ Proof. constructor; [right; left; reflexivity|reflexivity|reflexivity|reflexivit
 Lemma wfst : Forall wf_stage st1.
 Proof. repeat constructor; cbn; discriminate. Qed.
 Lemma wfa : Forall (wf_archent true) [amd64].
-Proof. constructor; [|constructor]. constructor; [reflexivity|discriminate|reflexivity]. Qed.
+Proof. constructor; [|constructor]. constructor; [reflexivity|discriminate|reflexivity|reflexivity]. Qed.
 Lemma ws1 : all_ws [ch 32]. Proof. repeat constructor. Qed.
 Lemma ws2 : all_ws sp2. Proof. repeat constructor. Qed.
 
@@ -32,7 +32,7 @@ Qed.
 Definition t1 : str := s "libfoo" ++ qual_text (Some any_arch) ++ clauses_text cl1.
 Definition p1 : possi := result (s "libfoo") (Some any_arch) cl1.
 Lemma alt1 : alt_ok2 t1 p1.
-Proof. apply alt_free2; [discriminate|reflexivity|reflexivity|split; reflexivity|apply cl1_ok]. Qed.
+Proof. apply alt_free2; [discriminate|reflexivity|reflexivity|repeat split; reflexivity|apply cl1_ok]. Qed.
 
 Definition psub : possi := {| p_name := s "misc:Depends"; p_arch := None; p_archs := None; p_stages := []; p_ver := None; p_subst := true |}.
 Lemma alt2 : alt_ok2 (possi_string psub) psub.
